@@ -407,12 +407,17 @@ main()
 func (c *Ctx) c19ZeroArity() {
 	shapes := []string{"x := %s(); x", "%s() + 0", "y := []int{%s()}; y[0]", "println(%s())", "if %s() > 0 { println(\"pos\") }", "func f() int { return %s() }; f()"}
 	forms := map[string]func(calls *int) goat.Value{
-		"f01": func(calls *int) goat.Value { return goat.NewFunc(0, 1, func(vm *goat.VM) goat.Value { *calls++; return goat.Int(41) }) },
+		"f01": func(calls *int) goat.Value {
+			return goat.NewFunc(0, 1, func(vm *goat.VM) goat.Value { *calls++; return goat.Int(41) })
+		},
 		"fN1": func(calls *int) goat.Value {
 			return goat.NewFunc(0, 1, func(vm *goat.VM, args []goat.Value) goat.Value { *calls += 1 + len(args); return goat.Int(41) })
 		},
 		"fNM": func(calls *int) goat.Value {
-			return goat.NewFunc(0, 1, func(vm *goat.VM, args []goat.Value) []goat.Value { *calls += 1 + len(args); return []goat.Value{goat.Int(41)} })
+			return goat.NewFunc(0, 1, func(vm *goat.VM, args []goat.Value) []goat.Value {
+				*calls += 1 + len(args)
+				return []goat.Value{goat.Int(41)}
+			})
 		},
 		"fVar": func(calls *int) goat.Value {
 			return goat.NewFunc(1, 1, func(vm *goat.VM, args []goat.Value, vargs ...goat.Value) []goat.Value {
@@ -440,7 +445,58 @@ func (c *Ctx) c19ZeroArity() {
 	}
 }
 
+// c19HostStructs: several values of one script struct type built by the host with NewStruct (also from ONE initialiser
+// slice used twice): every value keeps its own fields through GetAttr, through script functions and methods, next
+// to script-made instances; the host's initialiser slice is left alone
+func (c *Ctx) c19HostStructs() {
+	r := c.RNG
+	var out bytes.Buffer
+	vm := goat.New(goat.WithStdout(&out))
+	src := "type P struct {\n\tX int\n\tY string\n\tZ float64\n}\nfunc (p *P) Sum(k int) int {\n\treturn p.X*10 + k\n}\nfunc pass(a *P, b *P) int {\n\treturn a.X*100 + b.X\n}\nfunc fresh() int {\n\tq := &P{}\n\treturn q.X*1000 + len(q.Y)\n}\nfunc show(p *P) {\n\tprintln(p)\n}\n"
+	if _, err := vm.Eval(fstest.MapFS{}, "main", src); err != nil {
+		c.Rep.Notes = append(c.Rep.Notes, "c19HostStructs: "+err.Error())
+		return
+	}
+	base := vm.Get("main.P")
+	fail := func(what, got, want string) {
+		c.Rep.Violate(Violation{Kind: "oracle", Cut: "host-struct", Input: what, Impl: got, Oracle: want})
+	}
+	for it := 0; it < 20; it++ {
+		c.Rep.Oracle["host-struct"]++
+		x1, x2 := 1+r.Intn(90), 1+r.Intn(90)
+		init1 := []goat.Value{goat.String("X"), goat.Int(x1), goat.String("Y"), goat.String("one"), goat.String("Z"), goat.Float64(1.5)}
+		a := goat.NewStruct(base, init1)
+		b := goat.NewStruct(base, []goat.Value{goat.String("X"), goat.Int(x2), goat.String("Y"), goat.String("two")})
+		a2 := goat.NewStruct(base, init1) // the same initialiser slice again
+		if init1[0].String() != "X" || init1[2].String() != "Y" || init1[1].Int() != x1 {
+			fail("NewStruct(base, init) twice: the host's initialiser slice", fmt.Sprint(init1), "unchanged")
+		}
+		got := fmt.Sprint(a.GetAttr("X").Int(), a.GetAttr("Y").String(), a.GetAttr("Z").Float64(), b.GetAttr("X").Int(), b.GetAttr("Y").String(), b.GetAttr("Z").Float64(), a2.GetAttr("X").Int(), a2.GetAttr("Y").String())
+		want := fmt.Sprint(x1, "one", 1.5, x2, "two", 0.0, x1, "one")
+		if got != want {
+			fail("GetAttr of three host-built P values", got, want)
+		}
+		rets, err := vm.Call("main.pass", 1, a, b)
+		if err != nil || len(rets) != 1 || rets[0].Int() != x1*100+x2 {
+			fail("pass(a, b)", c19Show(rets, err), fmt.Sprint("ok ", x1*100+x2))
+		}
+		rets, err = vm.Call("main.fresh", 1)
+		if err != nil || len(rets) != 1 || rets[0].Int() != 0 {
+			fail("fresh(): a script-made &P{} after NewStruct", c19Show(rets, err), "ok 0")
+		}
+		b.SetAttr("X", goat.Int(x2+1))
+		out.Reset()
+		vm.Call("main.show", 0, a)
+		vm.Call("main.show", 0, b)
+		wantOut := fmt.Sprintf("&{X:%d Y:one Z:1.5}\n&{X:%d Y:two Z:0}\n", x1, x2+1)
+		if out.String() != wantOut {
+			fail("show(a); show(b) after b.SetAttr", out.String(), wantOut)
+		}
+	}
+}
+
 func (c *Ctx) c19RoundTrips(n int) {
+	c.c19HostStructs()
 	r := c.RNG
 	bad := func(what string, in, out any) {
 		c.Rep.Violate(Violation{Kind: "oracle", Cut: "roundtrip", Input: fmt.Sprintf("%s(%v)", what, in), Impl: fmt.Sprint(out), Oracle: fmt.Sprint(in)})
